@@ -13,6 +13,16 @@ COMMON_ASSUMPTIONS = [
     "design-level results hold for the stated small constants; conformance runs use real sizes on the schedules the scripts force",
 ]
 
+def sampled(gen, n: int):
+    """quick tier: a seeded sample of another property's family; thorough: all of it"""
+    def g(tier, rng):
+        scripts = list(gen(tier, rng))
+        if tier == "quick" and len(scripts) > n:
+            scripts = rng.sample(scripts, n)
+        return scripts
+    return g
+
+
 H1_DESIGN = [
     {"module": "MC_H1Conn", "cfg": "MC_H1Conn_quick.cfg"},
     {"module": "MC_H1Conn", "cfg": "MC_H1Conn_thorough.cfg", "tier": "thorough", "timeout": 7200},
@@ -26,14 +36,14 @@ def _dev(dev: str, expect: str) -> Dict[str, Any]:
 H1_GEN = [from_tlc.gen_h1_from_spec]
 
 PROPS: Dict[str, Dict[str, Any]] = {
-    "C01": {"monitor": "C01", "generators": [gen_h1.gen_c01, gen_h2.gen_h2_basic, gen_h1.gen_c06] + H1_GEN, "design": H1_DESIGN},
-    "C02": {"monitor": "C02", "generators": [gen_h1.gen_c02, gen_h2.gen_h2_basic, gen_h1.gen_c06, gen_h2.gen_flow] + H1_GEN, "design": H1_DESIGN},
+    "C01": {"monitor": "C01", "generators": [gen_h1.gen_c01, gen_h2.gen_h2_basic, sampled(gen_h1.gen_c06, 400)] + H1_GEN, "design": H1_DESIGN},
+    "C02": {"monitor": "C02", "generators": [gen_h1.gen_c02, gen_h2.gen_h2_basic, sampled(gen_h1.gen_c06, 400), gen_h2.gen_flow] + H1_GEN, "design": H1_DESIGN},
     "C03": {"monitor": "C03", "generators": [gen_h1.gen_c03, gen_h2.gen_h2_faults] + H1_GEN, "design": H1_DESIGN,
             "deviations": [_dev("DevDoubleLog", "AtMostOneAccess"), _dev("DevParked", "Released")]},
     "C05": {"monitor": "C05", "generators": [gen_h1.gen_c05, gen_h2.gen_h2_faults] + H1_GEN, "design": H1_DESIGN},
     "C06": {"monitor": "C06", "generators": [gen_h1.gen_c06] + H1_GEN, "design": H1_DESIGN,
             "deviations": [_dev("DevDiscPutBlocks", "Released")]},
-    "C07": {"monitor": "C07", "generators": [gen_h1.gen_c07, gen_h2.gen_h2_faults, gen_h1.gen_c06] + H1_GEN, "design": H1_DESIGN,
+    "C07": {"monitor": "C07", "generators": [gen_h1.gen_c07, gen_h2.gen_h2_faults, sampled(gen_h1.gen_c06, 400)] + H1_GEN, "design": H1_DESIGN,
             "deviations": [_dev("DevParked", "Released"), _dev("DevIdleKeeps", "Released"),
                            _dev("DevDiscPutBlocks", "Released")]},
 }
@@ -51,8 +61,23 @@ def flat_c13(tier, rng):
 
 PROPS["C04"] = {"monitor": "C04", "generators": [gen_h2.gen_unusual, gen_h2.gen_h2_faults, gen_h1.gen_c06, gen_ws.gen_c10,
                                                  gen_ws.gen_c11, flat_c13, gen_limits.gen_c18] + H1_GEN}
-PROPS["C08"] = {"monitor": "C08", "generators": [gen_h2.gen_release, gen_h2.gen_flow]}
-PROPS["C09"] = {"monitor": "C09", "generators": [gen_h2.gen_flow, gen_h2.gen_release, gen_h2.gen_h2_basic]}
+H2_DESIGN = [
+    {"module": "MC_H2Conn", "cfg": "MC_H2Conn_quick.cfg"},
+    {"module": "MC_H2Conn", "cfg": "MC_H2Conn_grow.cfg"},
+    {"module": "MC_H2Conn", "cfg": "MC_H2Conn_thorough.cfg", "tier": "thorough", "timeout": 7200},
+]
+
+
+def _h2dev(dev: str, expect: str, cfg: str = "MC_H2Conn_quick.cfg") -> Dict[str, Any]:
+    return {"module": "MC_H2Conn", "cfg": cfg, "dev": dev, "expect": expect}
+
+
+PROPS["C08"] = {"monitor": "C08", "generators": [gen_h2.gen_release, gen_h2.gen_flow, from_tlc.gen_h2_from_spec],
+                "design": H2_DESIGN,
+                "deviations": [_h2dev("DevLowWater", "Bounded", "MC_H2Conn_grow.cfg"), _h2dev("DevCloseNoRelease", "NoStuckSend"),
+                               _h2dev("DevResetNoRelease", "NoStuckSend")]}
+PROPS["C09"] = {"monitor": "C09", "generators": [gen_h2.gen_flow, gen_h2.gen_release, gen_h2.gen_h2_basic, from_tlc.gen_h2_from_spec],
+                "design": H2_DESIGN}
 PROPS["C10"] = {"monitor": "C10", "generators": [gen_ws.gen_c10]}
 PROPS["C11"] = {"monitor": "C11", "generators": [gen_ws.gen_c11]}
 PROPS["C12"] = {"monitor": "C12", "generators": [gen_asgi.gen_c12],
